@@ -10,7 +10,8 @@ CONSTANTS ShapeNames,   \* which of the shapes below to explore
           MaxDepth,     \* nesting of next_state_now
           MaxLevel,     \* bound on behaviour length
           UseInit,      \* explore engage(initial_state=..) / force=True
-          MaxActs       \* in-state actions per outermost iteration
+          MaxActs,      \* in-state actions per outermost iteration
+          UseRaise      \* state functions may raise
 
 Shp(states, first, default, durOf, nextOf, mf, auto) ==
     [states |-> states, first |-> first, default |-> default, durOf |-> durOf, nextOf |-> nextOf,
@@ -53,7 +54,7 @@ TimedStates == {s \in States : Timed(s)}
 
 TopInputs ==
     IF sh.auto
-    THEN {[e |-> "aenable"], [e |-> "aiter"], [e |-> "adisable"]}
+    THEN {[e |-> "aenable"], [e |-> "aiter"], [e |-> "adisable"], [e |-> "done"]}
     ELSE {[e |-> "engage", init |-> i, force |-> f] :
               i \in (IF UseInit THEN NonDef \cup {None} ELSE {None}),
               f \in (IF UseInit THEN BOOLEAN ELSE {FALSE})}
@@ -70,6 +71,7 @@ Inputs ==
     THEN TopInputs \cup {[e |-> "tick", d |-> d] : d \in Steps}
          \cup {[e |-> "setdur", s |-> s, d |-> d] : s \in TimedStates, d \in DurChoices}
     ELSE InStateInputs \cup {[e |-> "ret"]}
+         \cup (IF UseRaise THEN {[e |-> "raise", caught |-> c] : c \in (IF Len(stack) > 1 THEN BOOLEAN ELSE {FALSE})} ELSE {})
 
 \* on_enable() while the latch is already set is outside the explored space (the selector
 \* always calls on_disable() between two on_enable())
@@ -78,11 +80,12 @@ Allowed(ev) == ~(ev.e = "aenable" /\ autoOn) /\ ~(ev.e = "aiter" /\ ~latchSet)
 MCNext == \E ev \in Inputs : Allowed(ev) /\ EvNext(ev)
 MCSpec == MCInit /\ [][MCNext]_mvars
 
-Bound == now - start <= MaxRel /\ TLCGet("level") <= MaxLevel
+\* behaviours are not explored beyond an exception that left execute() (they are no longer judged, see Judged)
+Bound == now - start <= MaxRel /\ TLCGet("level") <= MaxLevel /\ ~stale
 
 \* absolute time does not matter, only time since the machine's origin
 MCView == <<sh, se, eng, cur, now - start, ran, st0, exp, dur, ntcur, autoOn, latchSet, stack, acted, req, post,
-            ncalls, nsn, dflag, udone, pure, inAuto, out, br>>
+            ncalls, nsn, dflag, udone, pure, inAuto, stale, out, br>>
 
 EnabledAgrees == \A ev \in Inputs : EvEnabled(ev) = ENABLED EvNext(ev)
 
@@ -95,4 +98,6 @@ Probe_Deactivate   == ~(Has("Deactivate") \/ Has("NoState"))
 Probe_MustFinishRunsUnrequested == ~(post /\ ~req /\ ncalls > 0 /\ cur \in sh.mf)
 Probe_Nested       == ~(nsn > 0 /\ ncalls > 1)
 Probe_AutoIdle     == ~Has("AutoIdle")
+\* a state function raised out of a requested iteration and the next iteration ran a regular state on the stale request
+Probe_StaleRequest == ~(Has("Raise") /\ se /\ AtTop)
 =============================================================================
